@@ -1657,7 +1657,7 @@ func (fr *frame) loopHeader(b *ssa.BasicBlock, li *loopInfo, states []*State, co
 		}
 	}
 	// implicit invariant: the function's frame condition holds at every iteration (checked again on the back edge)
-	if fr.top && fr.contract != nil {
+	if fr.top && fr.contract != nil && !fr.contract.Has("trusted-frame") {
 		if items, specified, err := parseModifies(fr.contract); err == nil && specified {
 			if fs, ok := fr.frameFormulas(items, fr.entry, st, true); ok {
 				for _, f := range fs {
@@ -1672,7 +1672,7 @@ func (fr *frame) loopHeader(b *ssa.BasicBlock, li *loopInfo, states []*State, co
 func (fr *frame) loopBackEdge(from, header *ssa.BasicBlock, li *loopInfo, st *State, cond string) {
 	vc := fr.vc
 	invs := fr.loopClauses(li)
-	if fr.top && fr.contract != nil {
+	if fr.top && fr.contract != nil && !fr.contract.Has("trusted-frame") {
 		if items, specified, err := parseModifies(fr.contract); err == nil && specified {
 			if fs, ok := fr.frameFormulas(items, fr.entry, st, true); ok {
 				var cs []string
